@@ -7,8 +7,8 @@ PROPS["C01"] = dict(
                "(generated from the headers), clone(), size() and destruction executed under ASan+UBSan with exception typing and an allocation-balance leak check; a sample "
                "is re-run under a basic-block step budget for termination.",
     level_note="Red-zone sanitizers miss intra-object and far out-of-bounds accesses; UBSan 'enum' check excluded (C++11: unspecified, not UB); termination = step budget 2e6+4000n blocks.",
-    phases=[dict(name="asan", harness="c01.cpp", flavor="asan", mode="main", cases=dict(quick=26000, thorough=1200000), watchdog=180),
-            dict(name="steps", harness="c01.cpp", flavor="cov", mode="main", cases=dict(quick=2600, thorough=60000), watchdog=180, budget=0)],
+    phases=[dict(name="asan", harness="c01.cpp", flavor="asan", mode="main", cases=dict(quick=26000, thorough=400000), watchdog=180),
+            dict(name="steps", harness="c01.cpp", flavor="cov", mode="main", cases=dict(quick=2600, thorough=30000), watchdog=180, budget=0)],
     rule="case = (entry point, derivation of inputs: seed+all truncations | 48 mutations of an accepted seed | generated packet + mutations + truncations | 48 random strings | 64 KiB); "
          "distinct = distinct (entry point, accepted layer chain, hash of all getter values) for accepted inputs and (entry point, length) for rejected ones",
     floors=dict(any={"distinct": 20000, "ok:*": 20, "rej:*": 20, "inputs": 500000, "entry_points": 60}),
